@@ -246,12 +246,28 @@ impl Service<Vec<u8>, ()> for SimService {
                 Box::pin(futures_util::stream::once(std::future::ready(item))) as SvcStream
             } else {
                 // A transaction of m responses.
+                // The brackets of the transaction come as items of their own
+                // or ride on the first / last response.
+                let begin_attached = ask.k % 3 == 1;
+                let end_attached = ask.k % 5 == 2;
                 let mut items: Vec<ServiceResult<Vec<u8>>> = Vec::new();
-                items.push(Ok(CallResult::feedback_only(ServiceFeedback::BeginTransaction)));
-                for j in 0..ask.m {
-                    items.push(Ok(CallResult::new(build_response(&msg, &ask, j))));
+                if !begin_attached {
+                    items.push(Ok(CallResult::feedback_only(ServiceFeedback::BeginTransaction)));
                 }
-                items.push(Ok(CallResult::feedback_only(ServiceFeedback::EndTransaction)));
+                for j in 0..ask.m {
+                    let mut cr = CallResult::new(build_response(&msg, &ask, j));
+                    if begin_attached && j == 0 {
+                        sim::stat("probe.transaction_begin_attached_to_first_response");
+                        cr = cr.with_feedback(ServiceFeedback::BeginTransaction);
+                    }
+                    if end_attached && j + 1 == ask.m {
+                        cr = cr.with_feedback(ServiceFeedback::EndTransaction);
+                    }
+                    items.push(Ok(cr));
+                }
+                if !end_attached {
+                    items.push(Ok(CallResult::feedback_only(ServiceFeedback::EndTransaction)));
+                }
                 Box::pin(futures_util::stream::iter(items)) as SvcStream
             }
         })
